@@ -14,8 +14,10 @@ def sigs : List Nat := [1, 10, 12, 28]
 
 def parseOp (w : String) : Option Op :=
   match w.splitOn ":" with
-  | ["start", h, sig] => some (.start (nat! h) (nat! sig))
-  | ["oneshot", h, sig] => some (.oneshot (nat! h) (nat! sig))
+  | ["start", h, sig] => some (.start (nat! h) (nat! sig) 0)
+  | ["start", h, sig, c] => some (.start (nat! h) (nat! sig) (nat! c))
+  | ["oneshot", h, sig] => some (.oneshot (nat! h) (nat! sig) 0)
+  | ["oneshot", h, sig, c] => some (.oneshot (nat! h) (nat! sig) (nat! c))
   | ["stop", h] => some (.stop (nat! h))
   | ["stop", h, _] => some (.stop (nat! h))
   | ["close", h] => some (.close (nat! h))
@@ -44,6 +46,15 @@ def hid? (d : DS) (w : String) : Option Nat :=
     | some i => if i < d.nh then some i else none
     | none => none
   else none
+
+/-- callbacks of one run in chronological order; every signal callback says which user callback ran -/
+def showTrace : List Cb → List Nat → List String
+  | [], _ => []
+  | .signal h sig _ _ _ :: t, c :: cs => s!"cb signal h{h} {sig} c{c}" :: showTrace t cs
+  | .signal h sig _ _ _ :: t, [] => s!"cb signal h{h} {sig} c?" :: showTrace t []
+  | .close h :: t, cs => s!"cb close h{h}" :: showTrace t cs
+
+def showS (s : S) : List String := showTrace s.trace.reverse s.cbLog.reverse
 
 def showCb : Cb → String
   | .signal h sig _ _ _ => s!"cb signal h{h} {sig}"
@@ -96,25 +107,31 @@ def sigStep0 (d : DS) : List String → DS × List String
   | ["run", l] =>
     if l.toNat?.isNone || nat! l ≥ d.nl then (d, ["bad-op"]) else
     let sc : Script := fun k => ((d.script.find? (·.1 = k)).map (·.2)).getD []
-    let s := runLoop sc { d.s with trace := [] } (nat! l)
+    let s := runLoop sc { d.s with trace := [], cbLog := [] } (nat! l)
     let d := { d with s := s }
-    (d, s.trace.reverse.map showCb ++ [s!"ran {nat! l}"] ++ obs d)
+    (d, showS s ++ [s!"ran {nat! l}"] ++ obs d)
   | "runraise" :: l :: g :: cops =>
     if l.toNat?.isNone || nat! l ≥ d.nl || !sigs.contains (nat! g) then (d, ["bad-op"]) else
     let sc : Script := fun k => ((d.script.find? (·.1 = k)).map (·.2)).getD []
     -- the check handle keeps the loop alive: poll phase, check phase (raise), closing phase
-    let s1 := dispatch sc { d.s with trace := [] } (nat! l)
+    let s1 := dispatch sc { d.s with trace := [], cbLog := [] } (nat! l)
     let (s2, r) := match s1.disp (nat! g) with
       | .dflt => (s1, "raise skipped-default")
       | _ => (deliver s1 (nat! g), "raised")
-    let s3 := runClosing { runOps s2 (cops.filterMap parseOp) with trace := [] } (nat! l)
+    let s3 := runClosing { runOps s2 (cops.filterMap parseOp) with trace := [], cbLog := [] } (nat! l)
     let d := { d with s := s3 }
-    (d, s1.trace.reverse.map showCb ++ ["check"] ++ obs { d with s := s1 } ++ [r] ++ s3.trace.reverse.map showCb ++ [s!"ran {nat! l}"] ++ obs d)
+    (d, showS s1 ++ ["check"] ++ obs { d with s := s1 } ++ [r] ++ showS s3 ++ [s!"ran {nat! l}"] ++ obs d)
   | ["start", h, g] => match hid? d h with
-    | some i => doOp d (.start i (nat! g))
+    | some i => doOp d (.start i (nat! g) 0)
+    | none => (d, ["bad-op"])
+  | ["start", h, g, c] => match hid? d h with
+    | some i => doOp d (.start i (nat! g) (nat! c))
     | none => (d, ["bad-op"])
   | ["oneshot", h, g] => match hid? d h with
-    | some i => doOp d (.oneshot i (nat! g))
+    | some i => doOp d (.oneshot i (nat! g) 0)
+    | none => (d, ["bad-op"])
+  | ["oneshot", h, g, c] => match hid? d h with
+    | some i => doOp d (.oneshot i (nat! g) (nat! c))
     | none => (d, ["bad-op"])
   | ["stop", h] => match hid? d h with
     | some i => doOp d (.stop i)
